@@ -12,6 +12,7 @@ import (
 
 // c06cell is one expected cell.
 type c06cell struct {
+	zn   bool // "zero/null value" of a string destination: null or the empty string
 	typ  string
 	i    int
 	f    float64
@@ -223,7 +224,8 @@ func c06zero(typ string) c06cell {
 	case "int", "float", "bool":
 		return c06cell{typ: typ}
 	}
-	return c06cell{typ: typ, null: true}
+	// the property says "zero/null value": for strings both the empty string and null qualify
+	return c06cell{typ: typ, null: true, zn: typ == "string"}
 }
 
 // c06colFromCells builds a harness column of P cells.
@@ -240,6 +242,7 @@ func c06colFromCells(typ string, cells []c06cell) vxCol {
 		default:
 			c.s = append(c.s, x.s)
 			c.null = append(c.null, x.null)
+			c.zn = append(c.zn, x.zn)
 		}
 	}
 	return c
